@@ -223,11 +223,16 @@ def findSub (pat : Bytes) : Bytes → Option Nat
 def findFrom (pat : Bytes) (bs : Bytes) (start : Nat) : Option Nat :=
   if start > bs.length then none else (findSub pat (bs.drop start)).map (· + start)
 
+/-- `int(text)` for a `str` that was decoded from ASCII bytes.  CPython turns only *non-ASCII* Unicode white space into
+    blanks before parsing and then skips C `isspace` characters, so for ASCII text the stripped set is TAB..CR and
+    space — not U+001C..U+001F, although `str.strip()` removes those (`int('12\x1d')` raises) -/
+def parseIntAscii (s : Str) : Except Err Int := parseIntWith isAsciiSpace s
+
 /-- `FieldType.from_bytes(data)[1]` -/
 def tyFromBytes : FTy → Bytes → Except Err Val
   | .int, b => do
       let s ← decodeAscii b
-      let i ← parseIntStr s
+      let i ← parseIntAscii s
       pure (.int i)
   | .float, b => do
       let s ← decodeAscii b
@@ -275,7 +280,7 @@ def segLoop (tbl : Table) : Nat → Bytes → Nat → Seg → Except Err (Nat ×
         | none => bs.dropLast                       -- `bytes_[0:-1]`
       do
         let s ← decodeAscii tagBytes
-        let tag ← parseIntStr s
+        let tag ← parseIntAscii s
         if 0 ≤ tag ∧ hasKey acc tag.toNat then .ok (cnt, acc)          -- `if tag in deserialized: break`
         else
           match lookupT tbl tag with
